@@ -310,11 +310,18 @@ pub fn run_c06(ctx: &Ctx) {
 // ---------------------------------------------------------------------------------- C07
 /// One lifetime through the shared set-up helper: same `fake!` expression every time, the harness
 /// does NOT touch the counter. Returns (outcomes of the c calls, exit outcome).
-fn helper_lifetime(arm: Arm, c: usize, end_in_panic: bool) -> (Vec<Result<i64, String>>, Result<(), String>) {
+fn helper_lifetime(arm: Arm, c: usize, end_in_panic: bool, prebuilt: Option<(FuncPtr, CallCountVerifier)>) -> (Vec<Result<i64, String>>, Result<(), String>) {
     let mut calls = Vec::new();
+    let mut prebuilt = prebuilt;
     let (r, _) = panicobs::observe(|| {
         let mut inj = InjectorPP::new();
-        install(&mut inj, arm, make(arm));
+        // either the usual idiom (fake! evaluated as the argument of will_execute) or a fake that was
+        // built earlier by the same helper line and is only installed now
+        let pair = match prebuilt.take() {
+            Some(p) => p,
+            None => make(arm),
+        };
+        install(&mut inj, arm, pair);
         for _ in 0..c {
             calls.push(call(arm, true));
         }
@@ -375,13 +382,23 @@ pub fn run_c07(ctx: &Ctx) {
         // installations too
         let first_use = !used.contains(arm);
         used.push(*arm);
+        // a third of the sequences build all their fakes up front (same source line) and install them one
+        // lifetime after the other: counting must still start from zero at each installation
+        let prebuilt_mode = idx % 3 == 1;
+        let mut stock: Vec<(FuncPtr, CallCountVerifier)> = if prebuilt_mode { (0..seq.len()).map(|_| make(*arm)).collect() } else { Vec::new() };
+        stock.reverse();
         for (li, &(c, pan)) in seq.iter().enumerate() {
             lifetimes += 1;
             let arm2 = *arm;
+            let pre = stock.pop();
             let (calls, exit) = if *threads {
-                std::thread::spawn(move || helper_lifetime(arm2, c, pan)).join().unwrap()
+                // FuncPtr is not Send: threaded sequences always use the usual idiom
+                if let Some(p) = pre {
+                    std::mem::forget(p);
+                }
+                std::thread::spawn(move || helper_lifetime(arm2, c, pan, None)).join().unwrap()
             } else {
-                helper_lifetime(arm2, c, pan)
+                helper_lifetime(arm2, c, pan, pre)
             };
             // reference: the verdict is a function of (N, c) only
             let mut bad = None;
@@ -416,6 +433,11 @@ pub fn run_c07(ctx: &Ctx) {
                 break;
             }
         }
+        // fakes that were built but never installed: their verifiers must not be "verified"
+        for p in stock.drain(..) {
+            std::mem::forget(p);
+        }
+        let class = if prebuilt_mode { format!("{}/prebuilt", class) } else { class };
         out::outcome(idx, &class, if sig.is_empty() { Verdict::Held } else { Verdict::Violated }, &sig, &d);
     }
     out::summary(&J::new().n("sequences_total", seqs.len()).n("lifetimes_run", lifetimes));
